@@ -735,6 +735,10 @@ with a column-0 line"""
     @classmethod
     def c(cls, *args, **kwargs): return g(*args, **kwargs)
     def __call__(self, *args, **kwargs): return g(*args, **kwargs)
+class BodySub(Body):
+    pass
+class BodySubSub(BodySub):
+    def own(self, *args, **kwargs): return self.m(*args, **kwargs)
 def two(*args, **kwargs):
     g(*args, **kwargs)
     Body.m(*args, **kwargs)
@@ -892,7 +896,9 @@ def rt_adversarial(req):
         try:
             for dotted in ('StaticPok.helper', 'StaticPok.helper2', 'StaticPok.meth', 'StaticPok', 'Body.m', 'Body.s', 'Body.c', 'Body',
                            'NoSelf.m', 'two', 'wrapped2', 'lam', 'recur_n', 'DeclaredMethod.outer', 'DeclaredMethod', 'CallableClass',
-                           'RaisingProp.viaprop', 'KwOnlyMethod.m', None):
+                           'RaisingProp.viaprop', 'KwOnlyMethod.m', None,
+                           # members a class inherits (autodoc's :inherited-members: passes such names)
+                           'BodySub.m', 'BodySub.s', 'BodySub.c', 'BodySubSub.m', 'BodySubSub.c', 'BodySubSub.own', 'BodySub'):
                 try:
                     with warnings.catch_warnings():
                         warnings.simplefilter('ignore')
